@@ -278,7 +278,7 @@ func genRate(t *rapid.T, label string, max float64, den int, out bool) float64 {
 }
 
 func genOpCase(t *rapid.T) opCase {
-	if rapid.IntRange(0, 49).Draw(t, "large") == 0 {
+	if rapid.IntRange(0, 49).Draw(t, "large")%25 == 13 {
 		return genBig(t)
 	}
 	var c opCase
